@@ -135,7 +135,7 @@ def arg_top(a):
 def structure_args(d, name, p, scale_max):
     """catalogue arguments plus structure classes: scaled up, near negative integers / poles, half-integers"""
     args = cat.gen_args(d, name, p, long_bits=d.choice([0, 0, 0, 2 * p]))
-    k = d.weighted([(6, "plain"), (3, "scaled"), (3, "near_int"), (2, "halfint"), (2, "tiny"), (1, "zero"), (2, "near_equal"),
+    k = d.weighted([(6, "plain"), (3, "scaled"), (3, "near_int"), (2, "halfint"), (2, "tiny"), (2, "zero"), (2, "near_equal"),
                     (2, "near_small_int")])
     spec = cat.FUNCS[name][0]
     idx = [i for i, ch in enumerate(spec) if ch in "zxpt"]
